@@ -53,9 +53,9 @@ func sameValue(a, b any) bool {
 }
 
 type c07Case struct {
-	Tree node  `json:"tree"`
+	Tree node   `json:"tree"`
 	Opts string `json:"index_options"`
-	Path []int `json:"path"`
+	Path []int  `json:"path"`
 }
 
 func c07Opts(name string) *buildOpts {
@@ -75,6 +75,15 @@ func c07Opts(name string) *buildOpts {
 				s.SetNegativeIndices(true)
 				s.SetForwardIndices(true)
 			}
+		}}
+	case "flags-after":
+		// options that have nothing to do with traversal, switched on after the content is in place
+		return &buildOpts{after: func(s stackage.Stack, path string) {
+			s.SetNoNesting(true).SetParen(true).SetFold(true).SetLeadOnce(true).SetNoPadding(true)
+		}}
+	case "locked-down":
+		return &buildOpts{neg: true, after: func(s stackage.Stack, path string) {
+			s.SetMutex().SetFIFO(true).SetNoNesting(true).SetReadOnly(true)
 		}}
 	}
 	return &buildOpts{}
@@ -180,8 +189,8 @@ func init() {
 			maxLen = 4
 		}
 		paths := c07Paths(maxLen, -1, 3)
-		optNames := []string{"default", "neg+fwd", "root-only", "children-only"}
-		c.Rule = "every tree of the bounded family (elements: leaf, nil, empty Stack, Condition(leaf), and nested Stack / alias / pointer-to-alias / Condition(Stack) / Condition(alias)) x 4 index-option placements x every index path of length 0..max with indices in [-1,3]; oracle = stepwise descent written from the statement using the real Index/Convert*/Expression; non-trivial = distinct (tree, options, path) where the stepwise walk fails before the last index or succeeds at depth >= 2"
+		optNames := []string{"default", "neg+fwd", "root-only", "children-only", "flags-after", "locked-down"}
+		c.Rule = "every tree of the bounded family (elements: leaf, nil, empty Stack, Condition(leaf), and nested Stack / alias / pointer-to-alias / Condition(Stack) / Condition(alias)) x 6 option placements (4 for the index options, 2 that switch unrelated flags, mutex, FIFO, read-only on after filling) x every index path of length 0..max with indices in [-1,3]; oracle = stepwise descent written from the statement using the real Index/Convert*/Expression; non-trivial = distinct (tree, options, path) where the stepwise walk fails before the last index or succeeds at depth >= 2"
 		c.Bound["trees"] = len(trees)
 		c.Bound["paths_per_tree"] = len(paths)
 		c.Bound["max_path_len"] = maxLen
